@@ -32,7 +32,7 @@ CONFIGS = [
 
 ALPHA = {   # two alphabets per configuration: the standalone API, and executions (with a delay function) + probes
     "api": (["RecS", "RecF", "Try", "open", "halfopen", "closed"], []),
-    "exec": (["Try", "closed", "RecS"], [-1, 1, 5]),
+    "exec": (["Try", "closed", "RecS"], [-1, 0, 1, 5]),     # delay function values: none (-1), zero, shorter and longer than the configured delay
 }
 
 
